@@ -16,6 +16,9 @@ def obligations(tier):
               "tables use s.ty and ty2 as column types") for i in range(NEN)]
     obs.append(Ob("C18.group/one-bucket-each", "c13", "c_group2", {"VF_MODE": "sql", "VF_N": 2}, t, ["simple_ddl_parser/output/core.py:Output.group_by_type_result"],
                   "two entities of any kinds (symbolic), grouped: each entity in exactly the bucket of its kind - databases and tablespaces do not share a list"))
+    obs.append(Ob("C18.pipe/entity-names", "pipe", "c_entity_name", {}, t, FN_PIPE,
+                  "7 entity statements (type, schema, domain, database, tablespace, schema IF NOT EXISTS, schema-qualified type) x 10 names (starting with the type word ARRAY, containing # / $, "
+                  "mixed case, keyword-like) - both symbolic; relational oracle: exactly the entity of the neutral name zz, renamed"))
     obs += lex_obs("C18", "c_kw", ["after_create"], tier, "lex")
     obs += lex_obs("C18", "c_name", ["after_dot", "type_after_dot"], tier, "lexname")
     return obs
